@@ -538,8 +538,9 @@ def rule_half(ctx):
                 val = eval(compile(ast.Expression(v), "<const>", "eval"), {"__builtins__": {}})
             except Exception:
                 val = None
-            ctx.ob("C07.HALF", v, f"HALF_OF_YEAR_IN_SECONDS is about half a year ({val})", isinstance(val, (int, float)) and 170 * 86400 <= val <= 190 * 86400,
-                   f"HALF_OF_YEAR_IN_SECONDS = {val}", construct="half:constant")
+            ctx.ob("C07.HALF", v, f"HALF_OF_YEAR_IN_SECONDS is about half a year ({val})", isinstance(val, (int, float)) and 182 * 86400 <= val <= 184 * 86400,
+                   f"HALF_OF_YEAR_IN_SECONDS = {val} ({val / 86400 if isinstance(val, (int, float)) else '?'} days) is not half of a 365/366-day year (182..184 days): timestamps "
+                   "inside the last half year lose their time of day, or the client's year inference window and the calendar drift apart", construct="half:constant")
     ctx.floor("C07.HALF", 5)
 
 
